@@ -254,3 +254,190 @@ def r_tokens(ctx) -> RuleResult:
         raise AnalysisError("R-TOKENS: neither a split nor a pattern found in the V3000 reader (anchors vanished)")
     res.counts = {"tokenizer_sites": n_split, "patterns_on_tokens": n_pat, "tokens": guarantee}
     return res
+
+
+# --------------------------------------------------------------------------- R-SYMZ
+
+
+def _sym_exec(ctx, fi, bindings: dict, depth=0):
+    """straight-line symbolic reading of a function: names -> terms (nested tuples); returns (env at the end, [return terms]).
+    Branches are followed one after the other and what they bind differently becomes ('alt', a, b)."""
+    from .common import try_const
+    env = dict(bindings)
+    rets = []
+
+    def term(e):
+        if isinstance(e, ast.Constant):
+            return ("const", e.value)
+        if isinstance(e, ast.Name):
+            if e.id in env:
+                return env[e.id]
+            c = try_const(ctx, fi, e, default=None)
+            if isinstance(c, (str, int)):
+                return ("const", c)
+            return ("name", e.id)
+        if isinstance(e, ast.Tuple):
+            return ("tuple",) + tuple(term(x) for x in e.elts)
+        if isinstance(e, ast.BoolOp):
+            return ("alt",) + tuple(term(v) for v in e.values)
+        if isinstance(e, ast.IfExp):
+            return ("alt", term(e.body), term(e.orelse))
+        if isinstance(e, ast.Subscript):
+            if isinstance(e.slice, ast.Slice):
+                return ("slice", term(e.value), norm(e.slice))
+            return ("item", term(e.value), term(e.slice))
+        if isinstance(e, ast.Attribute):
+            return ("attr", term(e.value), e.attr)
+        if isinstance(e, ast.NamedExpr):
+            t = term(e.value)
+            env[e.target.id] = t
+            return t
+        if isinstance(e, ast.Call):
+            if isinstance(e.func, ast.Attribute) and e.func.attr == "get" and e.args:
+                return ("item", term(e.func.value), term(e.args[0]))
+            if isinstance(e.func, ast.Attribute):
+                return ("call", e.func.attr, term(e.func.value)) + tuple(term(a) for a in e.args)
+            if isinstance(e.func, ast.Name) and e.func.id in ("int", "str"):
+                return term(e.args[0]) if e.args else ("const", 0)
+            cs = ctx.cg.resolve_call(fi, e, ctx.cg.local_types(fi), set(params_of(fi.node)))
+            if cs.kind == "tucan" and depth < 4:
+                ps = params_of(cs.target.node)
+                b2 = {p_: term(a_) for p_, a_ in zip(ps, e.args)}
+                _, r2 = _sym_exec(ctx, cs.target, b2, depth + 1)
+                if len(r2) == 1:
+                    return r2[0]
+                if r2:
+                    return ("alt",) + tuple(r2)
+            return ("call", norm(e.func)) + tuple(term(a) for a in e.args)
+        return ("expr", norm(e)[:60])
+
+    def bind(tg, t):
+        if isinstance(tg, ast.Name):
+            env[tg.id] = t
+        elif isinstance(tg, (ast.Tuple, ast.List)):
+            for i, x in enumerate(tg.elts):
+                bind(x, _component(t, i))
+
+    def run(stmts):
+        for st in stmts:
+            if isinstance(st, ast.Assign):
+                t = term(st.value)
+                for tg in st.targets:
+                    bind(tg, t)
+            elif isinstance(st, ast.AnnAssign) and st.value is not None:
+                bind(st.target, term(st.value))
+            elif isinstance(st, ast.Return) and st.value is not None:
+                rets.append(term(st.value))
+            elif isinstance(st, ast.If):
+                before = dict(env)
+                run(st.body)
+                after_body = dict(env)
+                env.clear()
+                env.update(before)
+                run(st.orelse)
+                for k in set(after_body) | set(env):
+                    a, b = after_body.get(k), env.get(k)
+                    if a != b:
+                        env[k] = ("alt", a if a is not None else ("name", k), b if b is not None else ("name", k))
+            elif isinstance(st, ast.Try):
+                run(st.body)
+            elif isinstance(st, (ast.For, ast.While, ast.With)):
+                run(st.body)
+    run(fi.node.body)
+    env["__term__"] = term
+    return env, rets
+
+
+def _component(t, i):
+    if isinstance(t, tuple) and t and t[0] == "tuple" and i + 1 < len(t):
+        return t[i + 1]
+    if isinstance(t, tuple) and t and t[0] == "alt":
+        return ("alt",) + tuple(_component(x, i) for x in t[1:])
+    return ("item", t, ("const", i))
+
+
+def _alts(t):
+    if isinstance(t, tuple) and t and t[0] == "alt":
+        out = []
+        for x in t[1:]:
+            out += _alts(x)
+        return out
+    return [t]
+
+
+def _show(t) -> str:
+    if not isinstance(t, tuple):
+        return str(t)
+    k = t[0]
+    if k == "const":
+        return repr(t[1])
+    if k == "name":
+        return t[1]
+    if k == "slice":
+        return f"{_show(t[1])}[{t[2]}]"
+    if k == "item":
+        return f"{_show(t[1])}[{_show(t[2])}]"
+    if k == "attr":
+        return f"{_show(t[1])}.{t[2]}"
+    if k == "call" and len(t) >= 3 and isinstance(t[2], tuple):
+        return f"{_show(t[2])}.{t[1]}({', '.join(_show(x) for x in t[3:])})" if not str(t[1]).count(".") and t[1].islower() and len(t) >= 3 and t[1] not in ("detect_hydrogen_isotopes",) else f"{t[1]}({', '.join(_show(x) for x in t[2:])})"
+    if k == "call":
+        return f"{t[1]}({', '.join(_show(x) for x in t[2:])})"
+    if k == "tuple":
+        return "(" + ", ".join(_show(x) for x in t[1:]) + ")"
+    if k == "alt":
+        return " | ".join(_show(x) for x in t[1:])
+    return str(t[1]) if len(t) > 1 else k
+
+
+@rule("R-SYMZ")
+def r_symz(ctx) -> RuleResult:
+    res = RuleResult("R-SYMZ", "wherever an atom record is made, the element symbol kept is the very key under which the atomic number was looked up in the element table (readers and parser)")
+    from .common import entry
+    sym_k = ctx.repo.const("tucan.graph_attributes", "ELEMENT_SYMBOL")
+    z_k = ctx.repo.const("tucan.graph_attributes", "ATOMIC_NUMBER")
+    roots = [entry(ctx, "read_text"), entry(ctx, "parse")]
+    fis = {}
+    for r in roots:
+        for q in [r.fq] + list(ctx.cg.closure([r.fq])):
+            fis[q] = ctx.cg.funcs[q]
+    lis_methods = [f for f in ctx.cg.funcs.values() if f.module.name == "tucan.parser.parser" and f.cls is not None]
+    for f in lis_methods:
+        fis[f.fq] = f
+    n = 0
+    for f in fis.values():
+        for d in own_walk(f.node):
+            if not isinstance(d, ast.Dict):
+                continue
+            keys = {try_const(ctx, f, k, default=None): v for k, v in zip(d.keys, d.values) if k is not None}
+            if sym_k not in keys or z_k not in keys:
+                continue
+            n += 1
+            env, _ = _sym_exec(ctx, f, {p_: ("name", p_) for p_ in params_of(f.node)})
+            term = env["__term__"]
+            s_t, z_t = term(keys[sym_k]), term(keys[z_k])
+            # the atomic number: ELEMENT_TABLE[K][ATOMIC_NUMBER]
+            lookups = []
+            undecided = []
+            for a in _alts(z_t):
+                if isinstance(a, tuple) and a[0] == "item" and a[2] == ("const", z_k):
+                    for b in _alts(a[1]):
+                        if isinstance(b, tuple) and b[0] == "item":
+                            lookups.append(b[2])
+                        else:
+                            undecided.append(b)
+                else:
+                    undecided.append(a)
+            if undecided or not lookups:
+                raise AnalysisError(f"R-SYMZ: in {f.qualname} the atomic number `{short(keys[z_k], 40)}` is not (only) an element-table look-up this analysis can read ({_show(z_t)[:120]})")
+            syms = _alts(s_t)
+            bad = [k for k in lookups for k1 in _alts(k) if k1 not in syms]
+            res.inst(f.fq, f"symbol kept: {_show(s_t)[:70]}; atomic number looked up under: {', '.join(_show(k)[:70] for k in lookups)}", "fail" if bad else "ok")
+            if bad:
+                res.fail(Finding("R-SYMZ", f.module.rel, f.qualname, norm(d)[:120],
+                                 f"the atomic number can come from the table entry of `{_show(bad[0])}` while the symbol kept is `{_show(s_t)}`: an atom can carry a symbol that is not the "
+                                 "table's spelling of its element (the sum formula is then written with that spelling, outside the grammar and not in Hill order)", line=d.lineno))
+    if n < 3:
+        raise AnalysisError(f"R-SYMZ: only {n} places found where an atom record with symbol and atomic number is made (expected V2000, V3000, parser)")
+    res.counts = {"atom_record_sites": n}
+    return res
